@@ -18,25 +18,24 @@ THEOREMS = [
       run (cursor i2 lenient max_seek) p pos = run (cursor i1 lenient max_seek) p pos"""),
     ("C10_reads_confined", """forall (cfg : config) (fuel : nat) (inp : input) (lenient : bool) (max_seek : N),
       let B := N.max (max_metadata_size cfg) 1024 in
-      all_steps (mp4_mstep B) (cursor inp lenient max_seek) (read_confined B) (sanitize_prog cfg fuel) 0 MHead"""),
+      let F := 2 * (max_metadata_size cfg + 1024 + 64) in
+      all_steps (mp4_mstep B F) (cursor inp lenient max_seek) (read_confined B) (sanitize_prog cfg fuel) 0 MHead"""),
     ("C10_mp4_alloc_bounded", """forall (cfg : config) (fuel : nat) (inp : input) (lenient : bool) (max_seek : N),
       let B := N.max (max_metadata_size cfg) 1024 in
-      all_steps (mp4_mstep B) (cursor inp lenient max_seek) (alloc_bounded B) (sanitize_prog cfg fuel) 0 MHead"""),
+      let F := 2 * (max_metadata_size cfg + 1024 + 64) in
+      all_steps (mp4_mstep B F) (cursor inp lenient max_seek) (alloc_bounded B F) (sanitize_prog cfg fuel) 0 MHead"""),
     ("C10_media_noninterference", """forall (cfg : config) (fuel : nat) (i1 i2 : input) (lenient : bool) (max_seek : N),
       ilen i1 = ilen i2 ->
       (forall j, iget i1 j <> iget i2 j ->
          exists n q, In (OSkip n, q) (trace_of (cursor i1 lenient max_seek) (fun s => s) (sanitize_prog cfg fuel) 0) /\\
                      q <= j < q + covered i1 lenient max_seek (OSkip n) q) ->
       mp4_sanitize cfg lenient max_seek i2 fuel = mp4_sanitize cfg lenient max_seek i1 fuel"""),
-    ("C10_metadata_size_refuted", """exists (cfg : config) (inp : input) (fuel : nat) (md : bytes) (z : N) (sp : span),
-      mp4_sanitize cfg true 18446744073709551615 inp fuel = Ok {| o_metadata := Some (md, z); o_data := sp |} /\\
-      2 * (max_metadata_size cfg + 1024 + 64) < N.of_nat (length md) + z"""),
-    ("C10_metadata_nonpad_bounded", """forall (cfg : config) (fuel : nat) (inp : input) (lenient : bool) (max_seek : N)
-                                             (md : bytes) (z : N) (sp : span),
+    ("C10_metadata_size_bounded", """forall (cfg : config) (fuel : nat) (inp : input) (lenient : bool) (max_seek : N)
+                                           (md : bytes) (z : N) (sp : span),
       mp4_sanitize cfg lenient max_seek inp fuel = Ok {| o_metadata := Some (md, z); o_data := sp |} ->
-      N.of_nat (length md) <= max_metadata_size cfg + 1024 + 64"""),
+      N.of_nat (length md) + z <= 2 * (max_metadata_size cfg + 1024 + 64)"""),
 ]
-HEAP_A, HEAP_B = 4, 65536     # sampled bound: peak heap <= HEAP_A * max(max_metadata_size, 1024) + HEAP_B
+HEAP_A, HEAP_B = 16, 16384     # sampled bound: peak heap <= HEAP_A * max(max_metadata_size, 1024) + HEAP_B
 TRUSTED = [
     "Coq 8.16.1 kernel (coqc; coqchk in the thorough tier); vm_compute for C10_metadata_size_refuted and the Examples; no native_compute",
     "axioms: none (Print Assumptions = Closed under the global context for every theorem)",
@@ -100,7 +99,7 @@ def adversarial(rng, tier):
     out = []
     # declared payload sizes above the limit: rejected before anything is allocated
     for lim in (4096, 2**16, P.DEFAULT_MAX):
-        for decl in (lim + 9, 2**31, 2**40, 2**63, 2**64 - 1):
+        for decl in (lim + 17, 2**31 + 17, 2**40, 2**63, 2**64 - 1):
             for nm in (b"moov", b"ftyp"):
                 L = Layout()
                 if nm == b"moov":
@@ -110,8 +109,9 @@ def adversarial(rng, tier):
                 out.append(case_line("strict", lim, None, L.total() + 5, L.exts()))
     # declared just below the limit, payload absent (virtual zeros or truncated file): allocates the declared size, then fails
     for lim in (4096, 2**16) + ((2**24,) if tier == "thorough" else (2**20,)):
-        L = Layout().add(f).add(md).add(box(b"moov", b"", form="32", size=lim + 8), virtual=lim + 8)
-        out.append(case_line("strict", lim, None, L.total(), L.exts()))
+        if lim <= 2**16:
+            L = Layout().add(f).add(md).add(box(b"moov", b"", form="32", size=lim + 8), virtual=lim + 8)
+            out.append(case_line("strict", lim, None, L.total(), L.exts()))
         L = Layout().add(f).add(md).add(box(b"moov", b"", form="32", size=lim + 8))
         out.append(case_line("strict", lim, None, L.total(), L.exts()))
         out.append(case_line("lenient", lim, None, L.total(), L.exts()))
@@ -120,7 +120,7 @@ def adversarial(rng, tier):
         L = Layout().add(f).add(md).add(box(b"moov", m1[8:], form="eof"), virtual=2**33)
         out.append(case_line("lenient", lim, None, L.total(), L.exts()))
     # amplification: a moov made of many tiny children
-    for nkids in (100, 500):
+    for nkids in (100, 500, 8000):
         kids = b"".join(box(b"abcd", b"") for _ in range(nkids))
         mv = box(b"moov", kids + m1[8:])
         for lim in (len(mv), 2**16, P.DEFAULT_MAX):
